@@ -14,8 +14,8 @@ THEOREMS = [
     "Mpc.C12_fold_eq_circuit_partial",
     "Mpc.C12_fold_wrap_ops",
     "Mpc.C12_fold_wrap_assignable",
-    "Mpc.C12_fold_add_partial",
-    "Mpc.C12_add_carry_lost_witness",
+    "Mpc.C12_fold_add",
+    "Mpc.C12_add_carry_lost_old_witness",
     "Mpc.C12_fold_shl",
     "Mpc.C12_fold_shr_partial",
     "Mpc.C12_shr_witness",
@@ -32,8 +32,8 @@ THEOREMS = [
     "Mpc.C12_result_type_widened_witness",
     "Mpc.C12_result_minbits_witness",
     "Mpc.C12_refold_shr_witness",
-    "Mpc.C12_no_crash_small",
-    "Mpc.C12_crash_wide_witness",
+    "Mpc.C12_no_crash",
+    "Mpc.C12_crash_wide_old_witness",
     "Mpc.C12_wide_witnesses",
     "Mpc.C12_rewiden_witness",
     "Mpc.Fold.constantMpa_ok",
